@@ -123,6 +123,7 @@ type mode19 struct {
 	ctx  context.Context // nil: the handles carry no context of their own
 	how  int             // 1: db.WithContext(ctx)   2: db.Session(&Session{Context: ctx})
 	prep bool            // db.Session(&Session{PrepareStmt: true})
+	tx   bool            // the handles are transactions: h.Begin(), rolled back after the real run
 	desc string
 	// descNoCtx: desc without the context step
 	descNoCtx string
@@ -152,6 +153,10 @@ func newCtx19(tenant string) context.Context {
 func drawMode(r *core.Rand, pctx int) mode19 {
 	var m mode19
 	m.desc = "h"
+	if r.Chance(1, 8) {
+		m.tx = true
+		m.desc = "h.Begin()"
+	}
 	if r.Chance(1, 8) {
 		m.prep = true
 		m.desc += ".Session(&Session{PrepareStmt: true})"
